@@ -425,7 +425,7 @@ pub fn check_space_reuse_across_graphs(cx: &mut Cx, a1: &Abs, a2: &Abs) -> R {
 }
 
 pub fn case(cx: &mut Cx, rng: &mut Rng) -> R {
-    let nmax = if cx.small { 6 } else if rng.chance(1, 10) { 14 } else { 9 };
+    let nmax = if cx.small { 6 } else if rng.chance(1, if cx.thorough { 40 } else { 150 }) { 70 } else if rng.chance(1, 10) { 14 } else { 9 };
     let o = GenOpts::new(nmax);
     let abs = gen(rng, &o);
     cx.log(|| abs.describe());
